@@ -77,15 +77,19 @@ impl TypeChecker {
         self.type_info.function_scopes.insert(ident.id, scope);
 
         let params = self.params(scope, params)?;
-        for (v, t) in &params {
-            self.insert_var(scope, v.clone(), t)?;
-        }
 
+        // The return type belongs to the signature: resolve it like the
+        // parameter types, before the parameters become variables of this
+        // scope (a parameter `a` must not hide the module in `-> a.R`).
         let ret = if let Some(ret) = ret {
             self.evaluate_type_expr(scope, ret)?
         } else {
             Type::unit()
         };
+
+        for (v, t) in &params {
+            self.insert_var(scope, v.clone(), t)?;
+        }
 
         let ctx = Context {
             expected_type: ret.clone(),
